@@ -22,6 +22,10 @@ func restoreIndex(rootGoitPath, path string, index *store.Index, tree *object.Tr
 
 	// get node
 	node, isNodeFound := object.GetNode(tree.Children, path)
+	// a directory of HEAD is not a file entry of HEAD
+	if isNodeFound && len(node.Children) > 0 {
+		isNodeFound = false
+	}
 
 	// if the entry is already the same as the one of HEAD, there is nothing to restore
 	if isEntryFound && isNodeFound {
